@@ -157,7 +157,7 @@ def main_check(mod, tier, batch_seed, out=sys.stdout):
         if res.get('status') == 'harness_error':
             harness_errors.append('known-finding witness: ' + str(res.get('detail')))
             continue
-        if ok_class and sig_key(mod.signature(json.load(open(wpath))['trace'], res)) == sig_key(e['signature']):
+        if ok_class and find_known(mod, [e], mod.signature(json.load(open(wpath))['trace'], res)) is not None:
             say(f'KNOWN-FINDING: property={mod.PROPERTY} {e["what"]}')
             known_live.append(e)
         else:
